@@ -276,6 +276,12 @@ func validateInlineSQL(cmd *cobra.Command, sql string) error {
 	} else {
 		err = parser.Validate(sql)
 	}
+
+	// Machine-readable formats get the same report as for files and stdin
+	if validateOutputFormat == OutputFormatJSON || validateOutputFormat == OutputFormatSARIF {
+		return reportInlineValidation(cmd, sql, err)
+	}
+
 	if err != nil {
 		if !validateQuiet {
 			fmt.Fprintf(cmd.ErrOrStderr(), "✗ Invalid SQL: %v\n", err)
@@ -292,6 +298,36 @@ func validateInlineSQL(cmd *cobra.Command, sql string) error {
 
 	if !validateQuiet {
 		fmt.Fprintln(cmd.OutOrStdout(), "✓ Valid SQL")
+	}
+	return nil
+}
+
+// reportInlineValidation writes the JSON or SARIF report for inline SQL (named
+// "inline" in the report) and returns the validation verdict as the command error.
+func reportInlineValidation(cmd *cobra.Command, sql string, verr error) error {
+	file := output.FileValidationResult{Path: "inline", Valid: verr == nil, Size: int64(len(sql)), Error: verr}
+	result := &output.ValidationResult{TotalFiles: 1, TotalBytes: file.Size, Files: []output.FileValidationResult{file}}
+	if verr != nil {
+		result.InvalidFiles = 1
+	} else {
+		result.ValidFiles = 1
+	}
+
+	var data []byte
+	var err error
+	if validateOutputFormat == OutputFormatSARIF {
+		data, err = output.FormatSARIF(result, Version)
+	} else {
+		data, err = output.FormatValidationJSON(result, []string{"inline"}, validateStats)
+	}
+	if err != nil {
+		return fmt.Errorf("failed to generate %s output: %w", validateOutputFormat, err)
+	}
+	if err := WriteOutput(data, validateOutputFile, cmd.OutOrStdout()); err != nil {
+		return err
+	}
+	if verr != nil {
+		return fmt.Errorf("validation failed: %w", verr)
 	}
 	return nil
 }
